@@ -7,14 +7,16 @@ namespace Drv.C15
 def presentedOf (l : Line) : _root_.C15.Presented :=
   { subjectType := str l "s.type", subjectLive := bool l "s.live", subjectSubject := str l "s.sub",
     actorGiven := str l "a.kind" != "none", actorType := str l "a.type", actorLive := bool l "a.live", actorSubject := str l "a.sub",
-    requestedType := str l "req.type", scopes := list l "scopes", audience := list l "aud", storageVeto := bool l "veto" }
+    requestedType := str l "req.type", scopes := list l "scopes", audience := list l "aud", storageVeto := bool l "veto",
+    actPolicy := if has l "actpol" then str l "actpol" else "flat" }
 
 def issuedOf (l : Line) : Option _root_.C15.Issued :=
   if str l "obs" == "ok" then
     some { issuedTokenType := str l "o.issued", accessToken := str l "o.at", accessLive := bool l "o.atlive",
            refreshToken := bool l "o.rt", refreshLive := bool l "o.rtlive", subject := str l "o.sub", scopes := list l "o.scopes",
            audience := list l "o.aud", policyAsked := bool l "o.seen", exchangeSubject := str l "o.xsub", actor := str l "o.actor",
-           selfContained := str l "o.form" == "jwt" || str l "o.form" == "id", tokenSubject := str l "o.jsub", tokenActor := str l "o.jact" }
+           selfContained := str l "o.form" == "jwt" || str l "o.form" == "id", tokenSubject := str l "o.jsub", tokenActor := str l "o.jact",
+           tokenAct := str l "o.jactv", policyActAnswered := bool l "o.pasked", policyAct := str l "o.pact" }
   else none
 
 def monitorLine (l : Line) : Option String :=
@@ -36,8 +38,8 @@ def cls (l : Line) : String :=
 def showObs (l : Line) : String :=
   if str l "obs" == "ok" then
     let tok := match str l "o.form" with
-      | "jwt" => s!"jwt({str l "o.jsub"}|{str l "o.jact"}|{str l "o.src"})"
-      | "id" => s!"id({str l "o.jsub"}|{str l "o.jact"}|{str l "o.src"})"
+      | "jwt" => s!"jwt({str l "o.jsub"}|{str l "o.jactv"}|{str l "o.src"})"
+      | "id" => s!"id({str l "o.jsub"}|{str l "o.jactv"}|{str l "o.src"})"
       | "" => "-"
       | f => f
     s!"ok:{short (str l "o.issued")}:sub={str l "o.sub"}:act={str l "o.actor"}:rt={if bool l "o.rt" then 1 else 0}:tok={tok}"
